@@ -52,3 +52,14 @@ func init() {
 		os.Exit(0)
 	}
 }
+
+func init() {
+	if len(os.Args) > 1 && os.Args[1] == "dbgnarrow" {
+		p, err := core.Load("")
+		if err != nil {
+			panic(err)
+		}
+		props.DebugNarrowAdds(p)
+		os.Exit(0)
+	}
+}
